@@ -14,7 +14,7 @@ PatternOf(cmd) ==
       [] cmd = "commit" -> <<Pat("putobj", "*"), Pat("setref", "1"), Pat("log", "*"), Pat("sethead", "1")>>
       [] cmd = "branch" -> <<Pat("setref", "1"), Pat("log", "*")>>
       [] cmd = "branchd" -> <<Pat("delref", "1"), Pat("dellog", "?")>>
-      [] cmd = "branchr" -> <<Pat("renref", "1"), Pat("sethead", "1"), Pat("log", "*"), Pat("dellog", "?"), Pat("log", "*")>>
+      [] cmd = "branchr" -> <<Pat("setref", "1"), Pat("sethead", "1"), Pat("delref", "1"), Pat("log", "*"), Pat("dellog", "?"), Pat("log", "*")>>
       [] cmd = "switch" -> <<Pat("sethead", "1"), Pat("log", "*")>>
       [] cmd = "switchc" -> <<Pat("setref", "1"), Pat("sethead", "1"), Pat("log", "*")>>
       [] cmd = "updateref" -> <<Pat("setref", "1"), Pat("sethead", "1")>>
